@@ -156,3 +156,35 @@ def check_fwd(rep, cfg, path, b, tr, sorts, loc, prop):
            where=cfg.where(path), nontrivial=True,
            sample={"obligation": key, "expected": want_s, "got": Tm.show(got, maxdepth=5)})
     return ok
+
+
+def check_select(rep, cfg):
+    """constant-time selection of the minimal backend's Element (used by the constant-time ladder): every coordinate of the result
+    must be ITE(choice, b.k, a.k) of the SAME coordinate k of the two operands - a mixed-up coordinate yields a value that still
+    compares equal (PartialEq reads x, y only) but is no longer a point (T*Z != X*Y) and encodes differently"""
+    n = 0
+    for path, b in sorted(cfg.prog.bodies.items()):
+        if b.get("impl_trait_def") != "subtle::ConditionallySelectable" or not path.endswith("::conditional_select"):
+            continue
+        st = b.get("impl_self", "")
+        if not (st.endswith("element::Element") or st.endswith("element::AffinePoint") or st.endswith("projective::Element")) or "r1cs" in st:
+            continue
+        n += 1
+        out = cfg.run(path)
+        names = [p_.get("name") for p_ in b["params"]]
+        A_, B_, ch = (mk("param", x) for x in names[:3])
+        v = out.value
+        ok = v.op == "struct" and not out.unmodelled
+        bad = []
+        if ok:
+            for k, t in zip(v.args[1], v.args[2:]):
+                want = Tm.ite(mk("choice_true", ch), field(B_, k), field(A_, k))
+                if t is not want:
+                    bad.append("%s = %s" % (k, Tm.show(t, maxdepth=4)))
+            adt = cfg.prog.adts.get(st) if hasattr(cfg.prog, "adts") else None
+            if len(v.args[1]) < 4 and "min_curve" in st:
+                bad.append("only %d coordinates selected" % len(v.args[1]))
+        rep.ob("SELECT/%s/%s" % (cfg.name, norm_path(path)), ok and not bad,
+               "conditional_select(a, b, choice) must select every coordinate k as ITE(choice, b.k, a.k); %s" % ("; ".join(bad) if bad else Tm.show(v, maxdepth=3)),
+               where=cfg.where(path), sample={"obligation": "SELECT/%s/%s" % (cfg.name, norm_path(path)), "coordinates": list(v.args[1]) if ok else []})
+    return n
